@@ -182,8 +182,8 @@ def run_pass(tc, name, tree, cap=CALL_CAP):
     def on_alarm(signum, frame):
         raise Budget("watchdog")
 
-    old = signal.signal(signal.SIGALRM, on_alarm)
-    signal.setitimer(signal.ITIMER_REAL, WATCHDOG_S)
+    old = signal.signal(signal.SIGPROF, on_alarm)
+    signal.setitimer(signal.ITIMER_PROF, WATCHDOG_S)
     status, errkey = "ok", ""
     try:
         method = getattr(tc, name)
@@ -204,8 +204,8 @@ def run_pass(tc, name, tree, cap=CALL_CAP):
         errkey = "pass=%s exc=%s%s at=%s" % (name, type(e).__name__, "(%s)" % m.group(1) if m else "",
                                              _innermost_mwlib_frame(e.__traceback__))
     finally:
-        signal.setitimer(signal.ITIMER_REAL, 0)
-        signal.signal(signal.SIGALRM, old)
+        signal.setitimer(signal.ITIMER_PROF, 0)
+        signal.signal(signal.SIGPROF, old)
     return status, errkey, calls[0]
 
 
@@ -235,8 +235,8 @@ def record(raw, lang="en", title="Verif", doc_id=0, lossless=False):
     def on_alarm(signum, frame):
         raise Budget("parse watchdog")
 
-    old = signal.signal(signal.SIGALRM, on_alarm)
-    signal.setitimer(signal.ITIMER_REAL, WATCHDOG_S)
+    old = signal.signal(signal.SIGPROF, on_alarm)
+    signal.setitimer(signal.ITIMER_PROF, WATCHDOG_S)
     try:
         tree = parse_string(title, raw=raw, lang=lang)
         advtree.build_advanced_tree(tree)
@@ -244,8 +244,8 @@ def record(raw, lang="en", title="Verif", doc_id=0, lossless=False):
         trace["parse_error"] = "%s: %s" % (type(e).__name__, str(e)[:200])
         return trace
     finally:
-        signal.setitimer(signal.ITIMER_REAL, 0)
-        signal.signal(signal.SIGALRM, old)
+        signal.setitimer(signal.ITIMER_PROF, 0)
+        signal.signal(signal.SIGPROF, old)
     prev = project(tree)
     prev_attrs = attr_digest(tree)
     snap = dict(prev)
